@@ -51,10 +51,12 @@ def run(ck):
             m, v1, v2, _ = ic.eval_cases(ck, "C01_shrink", [c])
             return bool(v1)
         worst = ic.shrink(ck, "ingest", worst, still_bad)
+        diag = ic.diagnose_variant(ck, "C01_variant", worst)
         ck.violation({"property": "C01", "kind": "acknowledgement discipline violated by the implementation",
                       "explanation": "the C01 monitors of model/IngestSpec.v (amon_step / smon_step / one_answer_b) reject the events observed on the real services: "
                                      "a promise was completed with success before / without a successful Do containing its rows, or outside the release of its own block",
-                      "case": worst, "replay": "harness ingest --cases <file with the case object on one line>"})
+                      "case": worst, "replay": "harness ingest --cases <file with the case object on one line>",
+                      **({"interleaving": diag} if diag else {})})
     elif res["mism"]:
         worst = ic.smallest([byid[i] for i in res["mism"]])
         ck.violation({"property": "C01", "kind": "model/implementation disagree; the C01 monitors still accept every observed trace",
